@@ -139,14 +139,14 @@ func goBuild(args []string, log *bytes.Buffer) error {
 }
 
 type shardResult struct {
-	part   string
-	idx    int
-	exit   int
-	timed  bool
-	out    string
-	shard  *ev.Shard
-	failf  string
-	checks int
+	part      string
+	idx       int
+	exit      int
+	timed     bool
+	out       string
+	shard     *ev.Shard
+	failf     string
+	checks    int
 	fuzzExecs int64
 	fuzzNote  string
 }
@@ -438,6 +438,23 @@ func run(prop *property, tier int, tierName string, seed int64, replay, scratch 
 					var s ev.Shard
 					if json.Unmarshal(b, &s) == nil {
 						r.shard = &s
+					}
+				}
+				// the process died in the middle of a case (ev.Begin without ev.End) with a fatal
+				// runtime error: that case is a violation of the code under test, not an
+				// infrastructure problem — unless the run timed out or was killed from outside
+				if b, err := os.ReadFile(shardFile + ".current"); err == nil && r.exit != 0 && !r.timed {
+					var f ev.Failure
+					if json.Unmarshal(b, &f) == nil && (strings.Contains(r.out, "fatal error:") || strings.Contains(r.out, "goroutine stack exceeds")) {
+						i := strings.Index(r.out, "fatal error:")
+						if i < 0 {
+							i = strings.Index(r.out, "goroutine stack exceeds")
+						}
+						f.Message = "the code under test killed the test process: " + firstLines(r.out[i:], 14)
+						if r.shard == nil {
+							r.shard = &ev.Shard{}
+						}
+						r.shard.Failures = append(r.shard.Failures, f)
 					}
 				}
 				if b, err := os.ReadFile(failFile); err == nil {
